@@ -43,6 +43,7 @@ def main():
     first.update({r["name"]: r for r in table(f"{V}/seeded/RESULTS-round8-before-strengthening.tsv")})
     first.update({r["name"]: r for r in table(f"{V}/seeded/RESULTS-round9-before-strengthening.tsv")})
     first.update({r["name"]: r for r in table(f"{V}/seeded/RESULTS-round10-before-strengthening.tsv")})
+    first.update({r["name"]: r for r in table(f"{V}/seeded/RESULTS-round11-before-strengthening.tsv")})
     out.append("### B.1 Seeded changes written by independent sub-agents (`seeded/<id>/`)")
     out.append("")
     out.append("Each sub-agent got only the text of one property and its own scratch worktree of `/repo` (nothing from")
@@ -55,7 +56,8 @@ def main():
     out.append("round 4, ids `r4...`: the version that met it, nothing missed; round 5, ids `r5...`: likewise the version that met")
     out.append("it - r5c12-1 did not even build under the hook wrapper of that time, which is why the wrapper now offers")
     out.append("std's inherent methods, hook commit `15f5dd0`; rounds 6 to 9, ids `r6...` to `r9...`: the version that met them; all rows under *now*, and the tables")
-    out.append("of B.2 and B.3, were measured once more in one go with the checks as committed at `0e96565`);")
+    out.append("of B.2 and B.3, were measured once more in one go with the checks as committed at `0e96565`; the four rows of")
+    out.append("round 11 (C16 only) one commit later, `8fb0bb7`, which added only the lane r11c16b-1 needs);")
     out.append("*now* = the checks as they stand. Round 2 and 3 sub-agents were also told which ideas the earlier rounds")
     rows = table(f"{V}/seeded/RESULTS.tsv")
     n_missed = sum(1 for r in rows if r["name"] in first and "caught" not in first[r["name"]]["verdict"] and r["name"] != "r10c14-1")
